@@ -870,3 +870,48 @@ def open_discipline_facts(run):
                     facts.append(("%s:open-after-close" % f.fq, ok, run.site(f, n),
                                   "" if ok else "%s calls self.open() without closing the previous socket first" % f.qualname))
     return facts
+
+
+# ------------------------------------------------ C11.R2b flag implies closed
+class _FlagClosed(Domain):
+    """state = (flag set True on this path, self.close() called on this path)"""
+
+    def __init__(self, flag):
+        self.flag = flag
+
+    def initial(self):
+        return (False, False)
+
+    def on_event(self, node, state):
+        if isinstance(node, ast.Call) and is_self_call(node, "close"):
+            yield (state[0], True), NORMAL
+            return
+        yield state, NORMAL
+        if isinstance(node, ast.Call) and not (dotted(node.func) or "").startswith("logger."):
+            yield state, RAISE("BaseException")     # any other call may raise into the handlers
+
+    def on_store(self, target, value, state, stmt):
+        if dotted(target) == self.flag and isinstance(value, ast.Constant):
+            return (value.value is True, state[1])
+        return state
+
+
+def flag_implies_closed_facts(run, f, flag):
+    """ServerTls.serviceCxes drops a pending connection from .cxes when its `aborted` flag is set and relies on the flag meaning
+    'already closed'.  Every path of the handshake that leaves with the flag set must have called self.close()."""
+    res = Interp(_FlagClosed(flag), run.lat).run(f.node)
+    run.paths += len(res)
+    facts = []
+    seen = {}
+    for (st, oc), tr in sorted(res.items(), key=lambda kv: str(kv[0])):
+        flagged, closed = st
+        if not flagged:
+            continue
+        k = "flagged-path-closes:%s" % ("raise" if is_raise(oc) else "return")
+        seen[k] = seen.get(k, True) and closed
+        if not closed:
+            seen[(k, "trail")] = tr
+    for k, ok in sorted((k, v) for k, v in seen.items() if isinstance(k, str)):
+        facts.append((k, ok, run.site(f), "" if ok else "%s sets %s = True on a path that never calls self.close(): the server then forgets the "
+                      "connection (del .cxes[ca]) with its socket still open" % (f.qualname, flag), seen.get((k, "trail"))))
+    return facts
